@@ -16,6 +16,7 @@ RULE = ("random edit histories (5-30 operations) on one object of each of the te
         "to_pubo/to_qubo/to_puso/to_quso/to_enumerated. Non-trivial = history with >= 4 distinct operation kinds "
         "that reached a state with >= 2 variables; distinct = digest of (type, operation list)"
         ' Also: long raw keys (9+ entries, labels repeated an even number of times), in-place powers up to 5 on small (also constrained) models, update with pairs / same-class / other-class models also into an empty model, permute_mapping with watched caller-owned dicts, frozen siblings (sources of copies and models given the same mapping dict) re-compared after every operation.')
+RULE += " Rounds 9-10: update() arguments that carry penalised constraints (ancillas among their terms), histories born as a variable object (create_var / boolean_var / spin_var)."
 TIERS = {"quick": {"shards": 8, "cases": 3000}, "thorough": {"shards": 16, "cases": 40000}}
 FLOOR_BASE = {"quick": 450, "thorough": 15000}    # case counts the floors below were calibrated for; the launcher scales them
 TYPES = ["QUBO", "PUBO", "PCBO", "QUSO", "PUSO", "PCSO", "QUBOMatrix", "PUBOMatrix", "QUSOMatrix", "PUSOMatrix"]
